@@ -7,6 +7,7 @@
 #include "../engine/json.hpp"
 #include "../engine/mc.hpp"
 
+#include <iomanip>
 #include <nitro/options/parser.hpp>
 
 #include <iostream>
@@ -191,8 +192,8 @@ struct SinkBuf : std::streambuf
 };
 
 static const char* STREAMS[] = { "fresh", "prior1", "prior79", "prior200", "prior79+nl", "prior200+nl", "nonseekable",
-                                 "fresh-after-a-parse", "fresh-from-the-moved-parser", "fresh-after-a-parse-that-took-values-from-the-environment" };
-static const int NSTREAMS = 10;
+                                 "fresh-after-a-parse", "fresh-from-the-moved-parser", "fresh-after-a-parse-that-took-values-from-the-environment", "stream-with-formatting-state" };
+static const int NSTREAMS = 11;
 
 static std::string usage_to(nitro::options::parser& p, int stream)
 {
@@ -202,6 +203,16 @@ static std::string usage_to(nitro::options::parser& p, int stream)
         std::ostream o(&b);
         p.usage(o);
         return b.data;
+    }
+    if (stream == 10)
+    {
+        // the caller's stream carries formatting state left over from earlier output (sticky fill character and flags, a
+        // pending width)
+        std::stringstream s;
+        s << std::setfill('0') << std::hex << std::showbase << std::uppercase << std::boolalpha << std::left << std::setprecision(2);
+        s.width(12);
+        p.usage(s);
+        return s.str();
     }
     std::string prior;
     switch (stream)
@@ -667,6 +678,10 @@ static const std::vector<std::string>& descriptions()
         "head " + std::string(60, 'e') + " tail words follow here",
         "tab\tseparated words",
         "x " + std::string(37, 'f') + " " + std::string(38, 'g') + " " + std::string(39, 'h'),
+        // runs of blanks (two blanks after a full stop, values set off with several blanks) on nearly filled lines
+        "s   seconds,  m   minutes,  h   hours,  d   days.  Two  blanks  after  the  stop.  And  more  words  follow  here  until  it  wraps  twice",
+        // a word that cannot fit (a URL) followed by a lot more text
+        "see https://example.org/" + std::string(50, 'u') + " for the full list of values and more text that keeps going for a while so that it has to wrap at least once more",
     };
     return d;
 }
@@ -876,9 +891,9 @@ int main(int argc, char** argv)
                 }
     };
     auto rep = sh.run();
-    rep.notes["rule"] = "part A: one item over the full product kind x name length x short x env x default x metavar/reversible x 11 "
+    rep.notes["rule"] = "part A: one item over the full product kind x name length x short x env x default x metavar/reversible x 13 "
                         "descriptions (words of 38..60 chars) x 2 application names x positionals; part B: 2-3 items over 6 variants x name "
-                        "permutations x group assignments x group pre-creation orders; part C: 17 / 40 / 70 items in 1 / 3 groups with descriptions of 0 / 81 / 300 / 1000 characters; each on 10 streams (incl. after a parse, after a parse that took values from the environment, from a moved parser); non-trivial = distinct "
+                        "permutations x group assignments x group pre-creation orders; part C: 17 / 40 / 70 items in 1 / 3 groups with descriptions of 0 / 81 / 300 / 1000 characters; each on 11 streams (incl. after a parse, after a parse that took values from the environment, from a moved parser); non-trivial = distinct "
                         "declarations with several items, a long name or a description that wraps";
     mc::write_out(a, rep);
     return 0;
